@@ -176,7 +176,22 @@ def _probe_points(slot, ch, n):
     pts = []
     members = None
     for i in range(n):
-        kind = ch.draw("probe_kind", 4)
+        kind = ch.draw("probe_kind", 6)
+        if kind >= 4 and pts and math.isfinite(pts[-1][0]) and math.isfinite(pts[-1][1]):
+            # the same position again (kind 4) / another position inside the same pixel (kind 5): vector queries with
+            # several positions per pixel
+            pra, pdec, pexp = pts[-1]
+            if kind == 5:
+                q = int(hp.ang2pix(nside, np.pi / 2 - pdec, pra, nest=True))
+                off = 0.15 * hp.nside2resol(nside)
+                for dra, ddec in ((off, 0.0), (0.0, off), (-off, 0.0), (0.0, -off)):
+                    ra2, dec2 = pra + dra / max(0.05, math.cos(pdec)), pdec + ddec
+                    if abs(dec2) < math.pi / 2 and int(hp.ang2pix(nside, np.pi / 2 - dec2, ra2 % (2 * math.pi), nest=True)) == q:
+                        pra, pdec = ra2 % (2 * math.pi), dec2
+                        break
+            pts.append((pra, pdec, pexp))
+            continue
+        kind = kind % 4
         if kind == 0 and slot.model:
             if members is None:
                 members = sorted(slot.model)
